@@ -4,7 +4,7 @@ import Katib.Props.C01World
 # C06 over whole schedules: trial verdicts are permanent, Succeeded excludes EarlyStopped
 
 `C06_permanent`: for **every** list of simulator operations (any reconciles with arbitrarily lagging reads, fault masks,
-abort points, any environment events — no hypothesis on the schedule at all): every trial of every earlier snapshot
+abort points, any environment events; the only hypothesis is that nobody deletes Trials): every trial of every earlier snapshot
 still exists, and every condition other than Running that was True then is True now (Succeeded, Failed, Killed,
 EarlyStopped, MetricsUnavailable and Created are never withdrawn); no trial is ever both Succeeded and EarlyStopped.
 -/
@@ -153,7 +153,7 @@ theorem snap_goodT {s : Sim} (hI : SInvT s) (i : Nat) : TInv (snapAt s i) ∧ TP
   | none => exact ⟨hI.1.1, TPast.refl _⟩
   | some w => exact hI.2 i w h
 
-theorem stepWorld_okT {s : Sim} (hI : SInvT s) (op : Op) :
+theorem stepWorld_okT {s : Sim} (hI : SInvT s) (op : Op) (hop : ∀ k, op ≠ .userDelete k) :
     (TInv (stepWorld s op).1 ∧ KInv (stepWorld s op).1) ∧ TPast s.cur (stepWorld s op).1 := by
   have hW := hI.1.1
   have hK := hI.1.2
@@ -250,10 +250,11 @@ theorem stepWorld_okT {s : Sim} (hI : SInvT s) (op : Op) :
       · have := tframe (w := s.cur) (w' := { s.cur with jobs := s.cur.jobs.filter (fun j => ¬ j.key = k') }) hW (by rfl)
         exact ⟨⟨this.1, hK⟩, this.2⟩
       · exact ⟨⟨hW, hK⟩, TPast.refl _⟩
+  | userDelete k' => exact absurd rfl (hop k')
   | noop => exact ⟨⟨hW, hK⟩, TPast.refl _⟩
 
-theorem step_invT {s : Sim} (hI : SInvT s) (op : Op) : SInvT (step s op).1 := by
-  obtain ⟨hW, hP⟩ := stepWorld_okT hI op
+theorem step_invT {s : Sim} (hI : SInvT s) (op : Op) (hop : ∀ k, op ≠ .userDelete k) : SInvT (step s op).1 := by
+  obtain ⟨hW, hP⟩ := stepWorld_okT hI op hop
   unfold step
   refine ⟨hW, ?_⟩
   intro i h hh
@@ -265,10 +266,12 @@ theorem step_invT {s : Sim} (hI : SInvT s) (op : Op) : SInvT (step s op).1 := by
     obtain ⟨h1, h2⟩ := hI.2 i h hh
     exact ⟨h1, TPast.trans h2 hP⟩
 
-theorem run_invT (ops : List Op) : ∀ {s : Sim}, SInvT s → SInvT (run s ops) := by
+theorem run_invT (ops : List Op) : ∀ {s : Sim}, SInvT s → (∀ op ∈ ops, ∀ k, op ≠ .userDelete k) → SInvT (run s ops) := by
   induction ops with
-  | nil => intro s h; exact h
-  | cons op r ih => intro s h; exact ih (step_invT h op)
+  | nil => intro s h _; exact h
+  | cons op r ih =>
+    intro s h hops
+    exact ih (step_invT h op (hops op List.mem_cons_self)) (fun o ho => hops o (List.mem_cons_of_mem _ ho))
 
 theorem init_invT (es : List ExpInit) : SInvT (Sim.init es) := by
   have hW : TInv (Sim.init es).cur ∧ KInv (Sim.init es).cur :=
@@ -285,13 +288,13 @@ theorem init_invT (es : List ExpInit) : SInvT (Sim.init es) := by
 
 /-- **C06_permanent**: over every schedule, terminal conditions are never withdrawn, a trial never disappears, and
     Succeeded excludes EarlyStopped. -/
-theorem C06_permanent (es : List ExpInit) (ops : List Op) :
+theorem C06_permanent (es : List ExpInit) (ops : List Op) (hops : ∀ op ∈ ops, ∀ k, op ≠ .userDelete k) :
     let s := run (Sim.init es) ops
     (∀ t ∈ s.cur.trials, tHas t .succeeded = true → tHas t .earlyStopped = false) ∧
     (∀ (i : Nat) (h : World), s.hist[i]? = some h → ∀ k th, findTrial h k = some th →
       ∃ tc, findTrial s.cur k = some tc ∧ ∀ ct, ct ≠ TCT.running → tHas th ct = true → tHas tc ct = true) := by
   intro s
-  have hI : SInvT s := run_invT ops (init_invT es)
+  have hI : SInvT s := run_invT ops (init_invT es) hops
   refine ⟨fun t ht => (hI.1.1 t ht).2, ?_⟩
   intro i h hh k th hth
   obtain ⟨tc, h1, _, _, h4⟩ := (hI.2 i h hh).2 k th hth
